@@ -77,7 +77,43 @@ class Iface:
 
     name: str
     base: Obj
-    subs: Tuple[Obj, ...]
+    subs: Tuple[Obj, ...]  # every concrete object type below this interface (all fields listed)
+    parents: Tuple[str, ...] = ()  # names of the interfaces this interface extends
+    sub_bases: Tuple[Tuple[str, Tuple[str, ...]], ...] = ()  # sub name -> its direct base interfaces (default: this one)
+
+    def bases_of(self, sub_name: str) -> Tuple[str, ...]:
+        return dict(self.sub_bases).get(sub_name, (self.name,))
+
+
+def iface_ancestors(name: str) -> List[str]:
+    """the interfaces an interface extends, transitively"""
+    out: List[str] = []
+    for p in EXTRAS[name].parents:
+        for q in [p] + iface_ancestors(p):
+            if q not in out:
+                out.append(q)
+    return out
+
+
+def sub_interfaces(sub_name: str) -> List[str]:
+    """every interface a concrete object type implements (GraphQL wants them all declared)"""
+    out: List[str] = []
+    for x in EXTRAS.values():
+        if isinstance(x, Iface) and any(s.name == sub_name for s in x.subs):
+            for b in x.bases_of(sub_name):
+                for q in [b] + iface_ancestors(b):
+                    if q not in out:
+                        out.append(q)
+    return sorted(out)
+
+
+def iface_family(name: str) -> List[str]:
+    """the interfaces sharing a concrete type with / extended by the interface"""
+    x = EXTRAS[name]
+    fam = {name, *iface_ancestors(name)}
+    for s in x.subs:
+        fam.update(sub_interfaces(s.name))
+    return sorted(fam)
 
 
 EXTRAS: Dict[str, Any] = {}
@@ -110,6 +146,25 @@ IBASE = Obj("dataclass", "Shape", (Fld("label", STR), Fld("sides", INT, has_defa
 ISUB1 = Obj("dataclass", "Square", IBASE.fields + (Fld("size", FLOAT, has_default=True, default=1.0),))
 ISUB2 = Obj("dataclass", "Circle", IBASE.fields + (Fld("radius", FLOAT, has_default=True, default=2.0), Fld("color", Opt(COLOR), has_default=True, default=None)))
 SHAPE = X(Iface("Shape", IBASE, (ISUB1, ISUB2)))
+# interface hierarchies: Node <- Named <- Titled (depth 3), Node <- Aged, diamond Person(Named, Aged)
+_F_ID = Fld("uid", STR)
+_F_NAME = Fld("full_name", STR, has_default=True, default="n")
+_F_AGE = Fld("age", INT, has_default=True, default=0)
+_F_TITLE = Fld("title", Opt(STR), has_default=True, default=None)
+I_NODE = Obj("dataclass", "Node0", (_F_ID,))
+I_NAMED = Obj("dataclass", "Named", (_F_ID, _F_NAME))
+I_AGED = Obj("dataclass", "Aged", (_F_ID, _F_AGE))
+I_TITLED = Obj("dataclass", "Titled", (_F_ID, _F_NAME, _F_TITLE))
+O_USER = Obj("dataclass", "User", (_F_ID, _F_NAME, Fld("email", STR, has_default=True, default="e")))
+O_BOSS = Obj("dataclass", "Boss", (_F_ID, _F_NAME, _F_TITLE, Fld("reports", INT, has_default=True, default=0)))
+O_PERSON = Obj("dataclass", "Person", (_F_ID, _F_AGE, _F_NAME, Fld("nick", STR, has_default=True, default="p")))
+O_PLAIN = Obj("dataclass", "Plain", (_F_ID, Fld("color", Opt(COLOR), has_default=True, default=None)))
+_SB = (("User", ("Named",)), ("Boss", ("Titled",)), ("Person", ("Named", "Aged")), ("Plain", ("Node0",)))
+NODE_I = X(Iface("Node0", I_NODE, (O_USER, O_BOSS, O_PERSON, O_PLAIN), (), _SB))
+NAMED_I = X(Iface("Named", I_NAMED, (O_USER, O_BOSS, O_PERSON), ("Node0",), _SB))
+AGED_I = X(Iface("Aged", I_AGED, (O_PERSON,), ("Node0",), _SB))
+TITLED_I = X(Iface("Titled", I_TITLED, (O_BOSS,), ("Named",), _SB))
+HIER_OBJ = Obj("dataclass", "Team", (Fld("lead", TITLED_I), Fld("members", Coll("list", NODE_I), factory="list"), Fld("oldest", Opt(AGED_I), has_default=True, default=None)))
 G7 = Obj("dataclass", "G7", (Fld("shape", SHAPE), Fld("square", Ref("Square")), Fld("shapes", Coll("list", SHAPE), factory="list")))
 # flattened interface-free composition
 G8 = Obj("dataclass", "G8", (Fld("z", INT), Fld("inner", G1, flatten=True)))
@@ -127,7 +182,7 @@ MIDDLE = Obj("dataclass", "Middle", (Fld("middle_value", STR), Fld("leaf", LEAF,
 TOP = Obj("dataclass", "Top", (Fld("top_value", INT), Fld("middle", MIDDLE, flatten=True)))
 ROOF = Obj("dataclass", "Roof", (Fld("roof_value", BOOL), Fld("top", TOP, flatten=True), Fld("tail", INT, has_default=True, default=0)))
 
-GQL_OBJECTS = [G1, G2, G3, G4, G5, G6, G7, G8, G9, PT, G10, LEAF, MIDDLE, TOP, ROOF]
+GQL_OBJECTS = [G1, G2, G3, G4, G5, G6, G7, G8, G9, PT, G10, LEAF, MIDDLE, TOP, ROOF, HIER_OBJ]
 
 
 def is_extra(td, kind=None) -> bool:
@@ -254,11 +309,19 @@ class World:
             self.registered.append(cls)
             realm.built[x.name] = cls
         elif isinstance(x, Iface):
-            base = self._dc(x.base, ())
+            parents = tuple(self.realize_extra(EXTRAS[p]) for p in x.parents)
+            inherited = {g.name for p in x.parents for g in EXTRAS[p].base.fields}
+            base = self._dc(dataclasses.replace(x.base, fields=tuple(f for f in x.base.fields if f.name not in inherited)), parents, full=x.base)
             interface(base)
             for s in x.subs:
-                own = tuple(f for f in s.fields if f.name not in {g.name for g in x.base.fields})
-                self._dc(dataclasses.replace(s, fields=own), (base,), full=s)
+                if s.name in realm.built:
+                    continue
+                bnames = x.bases_of(s.name)
+                bases = tuple(self.realize_extra(EXTRAS[b]) for b in bnames)
+                if s.name in realm.built:  # built while realising a base interface
+                    continue
+                inh = {g.name for b in bnames for g in EXTRAS[b].base.fields}
+                self._dc(dataclasses.replace(s, fields=tuple(f for f in s.fields if f.name not in inh)), bases, full=s)
         return realm.built[x.name]
 
     def _dc(self, td: Obj, bases, full: Optional[Obj] = None):
@@ -590,7 +653,7 @@ EMPTY = inspect.Parameter.empty
 
 def output_types(tier: str) -> List[Any]:
     base = [INT, FLOAT, STR, BOOL, Opt(INT), Coll("list", INT), Coll("list", Opt(STR)), Opt(Coll("list", Coll("list", INT))), COLOR, Opt(COLOR), Coll("list", COLOR), MOOD, USERID, KEY, ID_T, Opt(ID_T), UNDEF_INT, STAMP, Coll("list", BOXED), Uni((CAT, DOG)), Opt(Uni((CAT, DOG))), Coll("list", Uni((CAT, DOG))), SHAPE, Coll("list", SHAPE), Opt(SHAPE)]
-    objs = [P.A, P.B, P.C, P.D, P.E, P.K_, P.M_, P.N_, P.NT, P.NODE, P.PQ_P, P.FB2, P.I_, P.J, CAT] + [o for o in GQL_OBJECTS if o is not LEAF]
+    objs = [P.A, P.B, P.C, P.D, P.E, P.K_, P.M_, P.N_, P.NT, P.NODE, P.PQ_P, P.FB2, P.I_, P.J, CAT] + [o for o in GQL_OBJECTS if o is not LEAF and o is not HIER_OBJ]
     if tier == "thorough":
         objs += [P.L_, P.A2, DOG]
         base += [Coll("sequence", FLOAT), Coll("set", INT), Opt(Coll("list", Opt(P.A))), AnyT(), Coll("tuplevar", STR)]
@@ -619,6 +682,9 @@ def values_of(world: World, td, tier: str) -> List[Any]:
         return ["i1", "some id"]
     if isinstance(t, Conv):
         return [R[t.name](v) for v in values_of(world, t.target, tier)[:2]]
+    if isinstance(t, Iface) and t.name != "Shape":
+        allv = {"User": R["User"](uid="u1", full_name="Ann", email="a@b"), "Boss": R["Boss"](uid="b1", title="CEO", reports=3), "Person": R["Person"](uid="p1", age=40, nick="pp"), "Plain": R["Plain"](uid="x1", color=R["Color"]["R"])}
+        return [allv[s.name] for s in t.subs]
     if isinstance(t, Iface):
         return [R["Square"](label="sq", sides=4, size=2.5), R["Circle"](label="c", radius=1.0, color=R["Color"]["G"]), R["Circle"](label="c2")]
     if isinstance(t, Opt):
@@ -633,7 +699,7 @@ def values_of(world: World, td, tier: str) -> List[Any]:
         return vals
     if isinstance(t, Uni):
         return [v for a in t.alts if a != NONE for v in values_of(world, a, tier)[:2]]
-    if isinstance(t, Obj) and t.name.startswith("G") and t.name[1:].isdigit():
+    if isinstance(t, Obj) and (t.name == "Team" or t.name.startswith("G") and t.name[1:].isdigit()):
         return gql_values(world, t)
     out = []
     for d in P.valid_samples(t)[: (3 if tier == "quick" else 6)]:
@@ -669,6 +735,9 @@ def gql_values(world: World, t: Obj) -> List[Any]:
         return [R["G9"](), R["G9"](c=Color["R"], n=4)]
     if t.name == "G10":
         return [R["G10"](shape_name="s"), R["G10"](shape_name="t", origin_point=R["Pt"](x_coord=5), opt_point=R["Pt"](y_coord=7))]
+    if t.name == "Team":
+        boss, user, person, plain = R["Boss"](uid="b", title="T"), R["User"](uid="u"), R["Person"](uid="p", age=7), R["Plain"](uid="x")
+        return [R["Team"](lead=boss), R["Team"](lead=boss, members=[user, boss, person, plain], oldest=person)]
     if t.name == "G8":
         return [R["G8"](z=1, inner=R["G1"](color=Color["R"])), R["G8"](z=2, inner=R["G1"](color=Color["G"], mood="sad", maybe=Color["G"]))]
     raise KeyError(t.name)
@@ -714,9 +783,11 @@ def _names_of_objects(oracle: Oracle, td, side: str, out: Dict[str, Any], seen=N
             for _, f, _o in oracle.fields(tgt):
                 _names_of_objects(oracle, f.t, side, out, seen)
     elif isinstance(t, Iface):
-        out[t.name] = ("interface", t)
-        for _, f, _o in oracle.fields(t.base):
-            _names_of_objects(oracle, f.t, side, out, seen)
+        for nm in iface_family(t.name):
+            fam = EXTRAS[nm]
+            out[fam.name] = ("interface", fam)
+            for _, f, _o in oracle.fields(fam.base):
+                _names_of_objects(oracle, f.t, side, out, seen)
         for s in t.subs:
             _names_of_objects(oracle, s, side, out, seen)
     elif isinstance(t, Obj):
@@ -762,12 +833,32 @@ def run(report, tier: str, seed: int):
             for i, td in outs:
                 if special(td):
                     _run_cfg(report, tier, rng, cfg, world, mlog, elog, alog, [(i, td)], [], "only " + short(td))
+            # interface hierarchies (depth 2 and 3, diamond), through fields typed by each level
+            _run_cfg(report, tier, rng, cfg, world, mlog, elog, alog, [(910, Coll("list", NODE_I)), (911, NAMED_I), (912, Opt(TITLED_I)), (913, AGED_I), (914, HIER_OBJ)], [], "interface hierarchy")
             if n == 0 or tier == "thorough":
                 # the two interactions above, on purpose
                 _run_cfg(report, tier, rng, cfg, world, mlog, elog, alog, [(900, Uni((CAT, DOG))), (901, Opt(Uni((CAT, DOG))))], [], "union used twice")
                 _run_cfg(report, tier, rng, cfg, world, mlog, elog, alog, [(902, P.E), (903, P.A)], [], "flattened+plain use of A")
         finally:
             world.dispose()
+
+
+def _ifaces_in(oracle: "Oracle", td, seen=None) -> List[str]:
+    """names of the interfaces a description mentions"""
+    seen = seen if seen is not None else set()
+    t = oracle.resolve(td)
+    if repr(t) in seen:
+        return []
+    seen.add(repr(t))
+    if isinstance(t, Iface):
+        return [t.name]
+    if isinstance(t, Uni):
+        return [n for a in t.alts if a != NONE for n in _ifaces_in(oracle, a, seen)]
+    if isinstance(t, (Opt, Undef, Ann, Coll, NewT)):
+        return _ifaces_in(oracle, t.t, seen)
+    if isinstance(t, Obj):
+        return [n for f in t.fields for n in _ifaces_in(oracle, f.t, seen)]
+    return []
 
 
 def _has(oracle: "Oracle", td, what: str, seen=None) -> bool:
@@ -961,7 +1052,13 @@ def _run_cfg(report, tier, rng, cfg: Cfg, world: World, mlog, elog, alog, out_li
         kw["id_types"] = {world.realm.built[n] for n in cfg.id_names}
     if cfg.id_encoding:
         kw["id_encoding"] = (b64d, b64e)
-    extra_types = [world.realm.built["Square"], world.realm.built["Circle"]] if misc or any(_has(oracle, td, "iface") for _, td in out_list) else []
+    impl_names: List[str] = ["Square", "Circle"] if misc else []
+    for _, td in out_list:
+        for nm in _ifaces_in(oracle, td):
+            for sname in [x.name for x in EXTRAS[nm].subs]:
+                if sname not in impl_names:
+                    impl_names.append(sname)
+    extra_types = [world.realm.built[n] for n in impl_names]
     # every operation must be supported on its own; one that is not is reported and left out of
     # the common schema (so that the others are still checked)
     descr = {op["name"]: f"{short(op['td'])}:{op['kind']}:default={op['default']!r}"[:200] + (":parameters_metadata" if op.get("md") else "") for op in arg_ops}
@@ -1082,8 +1179,10 @@ def _run_cfg(report, tier, rng, cfg: Cfg, world: World, mlog, elog, alog, out_li
         tk = qt.fields.get(cfg.al("tok_len"))
         expect("Query.tok_len: parameter converted through parameters_metadata", {a: str(x.type) for a, x in tk.args.items()} if tk else None, {cfg.al("tok"): "String!"}, ("OutputSchemaBuilder._resolver",))
         expected_named["Color"] = ("enum", COLOR)
-    if extra_types:
-        _names_of_objects(oracle, SHAPE, "out", expected_named)
+    for _nm in impl_names:
+        _names_of_objects(oracle, world.desc(_nm), "out", expected_named)
+        for _i in sub_interfaces(_nm):
+            _names_of_objects(oracle, Ref(_i), "out", expected_named)
     # named types: kinds, fields, members
     for gname, (kind, t) in sorted(expected_named.items()):
         got = schema.type_map.get(gname)
@@ -1129,12 +1228,16 @@ def _run_cfg(report, tier, rng, cfg: Cfg, world: World, mlog, elog, alog, out_li
             expect(f"interface {gname}: kind", type(got).__name__, "GraphQLInterfaceType", ("OutputSchemaBuilder.object",))
             if isinstance(got, graphql.GraphQLInterfaceType):
                 expect(f"interface {gname}: fields", {k: str(f.type) for k, f in got.fields.items()}, {n: oracle.type_str(f.t, "out") for n, f, _ in oracle.fields(t.base)}, ("OutputSchemaBuilder.object",))
+                expect(f"interface {gname}: implements", sorted(i.name for i in got.interfaces), sorted(iface_ancestors(gname)), ("OutputSchemaBuilder.object", "get_interfaces"))
                 for s in t.subs:
                     st = schema.type_map.get(s.name)
-                    expect(f"type {s.name}: implements", [i.name for i in getattr(st, "interfaces", ())], [gname], ("OutputSchemaBuilder.object",))
+                    if st is not None:  # (only the implementations given to the schema)
+                        expect(f"type {s.name}: implements", sorted(i.name for i in getattr(st, "interfaces", ())), sub_interfaces(s.name), ("OutputSchemaBuilder.object", "get_interfaces"))
     builtin = {"Int", "Float", "String", "Boolean", "ID", "Query", "Mutation"}
-    if extra_types:
-        _names_of_objects(oracle, SHAPE, "out", expected_named)
+    for _nm in impl_names:
+        _names_of_objects(oracle, world.desc(_nm), "out", expected_named)
+        for _i in sub_interfaces(_nm):
+            _names_of_objects(oracle, Ref(_i), "out", expected_named)
     unexpected = sorted(n for n in schema.type_map if not n.startswith("__") and n not in builtin and n not in expected_named)
     expect("no unexpected named type", unexpected, [])
 
